@@ -343,10 +343,37 @@ func runC12(x *Ctx) {
 	for _, h := range hists {
 		all = append(all, h...)
 	}
+	// Through ServeHTTP a request reads the registration state twice: the ServeMux decides between the
+	// dispatcher and a plain handler, then the router looks at the services. The statement promises one
+	// state per request for Add/Remove/Route/RemoveRoute; Handle and HandleWithFilter are exercised here
+	// as an extension (same lock, same mux). A request to a plain handler's pattern that overlaps that
+	// very registration may therefore combine "not yet on the mux" with a later service state: it is
+	// exempt from the state-based verdicts (reachable-state and linearizability), not from the others.
+	exempt := map[int]bool{}
+	if sc.entry == EntryServeHTTP {
+		for i, h := range all {
+			if h.Probe == nil {
+				continue
+			}
+			for _, g := range all {
+				if g.Admin == nil || !strings.HasPrefix(g.Admin.Kind, "handle") || !(g.Call < h.Ret && h.Call < g.Ret) {
+					continue
+				}
+				pat := c12Plain[g.Admin.Plain]
+				if h.Probe.Path == pat || h.Probe.Path+"/" == pat || (strings.HasSuffix(pat, "/") && strings.HasPrefix(h.Probe.Path, pat)) {
+					exempt[i] = true
+					x.Count("relaxed:request-overlapping-the-registration-of-its-plain-handler")
+				}
+			}
+		}
+	}
+	for i := range all {
+		all[i].Exempt = exempt[i]
+	}
 	overlap := false
 	sensitive := 0
 	for _, h := range all {
-		if h.Probe == nil {
+		if h.Probe == nil || h.Exempt {
 			continue
 		}
 		outs := map[string]bool{}
@@ -379,33 +406,6 @@ func runC12(x *Ctx) {
 	}
 	x.Res.Nontrivial = overlap || s.Counts["blocked-probes"] > 0
 
-	// Through ServeHTTP a request reads the registration state twice: the ServeMux decides between the
-	// dispatcher and a plain handler, then the router looks at the services. The statement promises one
-	// state per request for Add/Remove/Route/RemoveRoute; Handle and HandleWithFilter are exercised here
-	// as an extension (same lock, same mux). A request to a plain handler's pattern that overlaps that
-	// very registration may therefore combine "not yet on the mux" with a later service state: it is
-	// exempt from the linearizability verdict (and only from that).
-	exempt := map[int]bool{}
-	if sc.entry == EntryServeHTTP {
-		for i, h := range all {
-			if h.Probe == nil {
-				continue
-			}
-			for _, g := range all {
-				if g.Admin == nil || !strings.HasPrefix(g.Admin.Kind, "handle") || !(g.Call < h.Ret && h.Call < g.Ret) {
-					continue
-				}
-				pat := c12Plain[g.Admin.Plain]
-				if h.Probe.Path == pat || h.Probe.Path+"/" == pat || (strings.HasSuffix(pat, "/") && strings.HasPrefix(h.Probe.Path, pat)) {
-					exempt[i] = true
-					x.Count("relaxed:request-overlapping-the-registration-of-its-plain-handler")
-				}
-			}
-		}
-	}
-	for i := range all {
-		all[i].Exempt = exempt[i]
-	}
 	// linearizability against the registration model
 	var mu sync.Mutex
 	states := map[string]RegState{init.Key(): init}
